@@ -199,6 +199,7 @@ contract(
             sent_open=obj(None),
             received_open=obj(None, asn=int_(0, 65535), hold_time=int_(0, 65535), router_id=obj(None, **{'int!': int_(0, 0xFFFFFFFF)})),
             peer_as=int_(0, 0xFFFFFFFF),
+            holdtime=int_(0, 65535),
             multisession=const(False),
         ),
         'neighbor': obj(None, session=obj(None, peer_as=int_(0, 0xFFFFFFFF), local_as=int_(1, 0xFFFFFFFF), router_id=obj(None, **{'int!': int_(1, 0xFFFFFFFF)}))),
